@@ -9,6 +9,7 @@ stop exception, join() terminates, no deadlock, and the virtual time that elapse
 and the release is 0.
 """
 import logging
+from common import poke  # noqa: E402
 
 import dsched
 from common import cbool, clist
@@ -95,7 +96,7 @@ def scenario(s, variant, env, stopper_delay, n_signals):
            "getsig_reader": GetSigTask, "getsig_timed_reader": GetSigTimedTask}[variant]
     kwargs = {"loop_period": 2.0} if variant == "loop" else {}
     th = T._TaskThread(runner, "t", cls, (), kwargs)
-    runner._thread = th
+    poke(runner, '_thread', th)
     th.start()
     th.wait_until_initialized()
     st, exc = th.get_state()
